@@ -16,7 +16,7 @@ C06 — executable model of the ordered-subset bookkeeping.
   `randomly_permute_subset_order` (IterativeReconstruction.cxx:577, :630).
 * `getSubsetNum`, `reconLoop`, `reconSchedule`, `reconSetUpOk` transcribe the state machine of
   `IterativeReconstruction::get_subset_num` (the member `_current_subset_array`, regenerated when
-  `(subiteration_num - 1) % num_subsets == 0`), the loop of `IterativeReconstruction::reconstruct`
+  `(subiteration_num - 1) % num_subsets == 0` or when it does not have `num_subsets` elements), the loop of `IterativeReconstruction::reconstruct`
   (IterativeReconstruction.cxx:402) and the parameter checks of `set_start_subset_num` / `set_up` (:286, :432)
   together with the balance tests of `PoissonLogLikelihoodWithLinearModelForMean::set_up`
   (PoissonLogLikelihoodWithLinearModelForMean.cxx:275) and `OSMAPOSLReconstruction::set_up` (OSMAPOSLReconstruction.cxx:284).
@@ -147,14 +147,16 @@ structure SchedState where
   pos : Nat
   deriving Repr, DecidableEq
 
-/-- `IterativeReconstruction::get_subset_num` (IterativeReconstruction.cxx:630) at `subiteration_num = s ≥ 1`.
-    `draw j` is the value `(int)((float)rand()/RAND_MAX * (n - j % n))` of the `j`-th call of `rand()`.
-    Result `none`: `_current_subset_array` is indexed outside its range (it has length 0 until the first sub-iteration
-    with `(s - 1) % n = 0`): undefined behaviour in the C++. -/
+/-- `IterativeReconstruction::get_subset_num` (IterativeReconstruction.cxx:630, after the repair bfafc063a) at
+    `subiteration_num = s ≥ 1`.  `draw j` is the value `(int)((float)rand()/RAND_MAX * (n - j % n))` of the `j`-th call of
+    `rand()`.  With randomised order a new permutation is generated at the start of every full iteration
+    (`(s - 1) % n == 0`) and whenever `_current_subset_array` does not have `n` elements (never generated yet, or generated
+    for another number of subsets).  The result is the C++ expression `_current_subset_array[(s - 1) % n]` as an indexing
+    that could fail (`none`); `C06_recon_defined` shows that it never does. -/
 def getSubsetNum (n startSubset : Nat) (rnd : Bool) (draw : Nat → Nat) (st : SchedState) (s : Nat) :
     SchedState × Option Nat :=
   let st' : SchedState :=
-    if rnd && (s - 1) % n == 0 then
+    if rnd && ((s - 1) % n == 0 || st.arr.length != n) then
       { arr := permute n ((List.range n).map fun i => draw (st.pos + i)), pos := st.pos + n }
     else st
   (st', if rnd then st'.arr[(s - 1) % n]? else some (subsetNum s startSubset n))
